@@ -486,6 +486,9 @@ def check_overruled(acc):
 
 
 def check_any(spec, acc):
+    if spec.get("fam") == "bases":
+        check_bases(acc)
+        return
     if spec.get("fam") == "overruled":
         check_overruled(acc)
         return
@@ -497,6 +500,52 @@ def check_any(spec, acc):
         check_spec(spec, acc)
 
 
+def check_bases(acc):
+    """Several bases: the groups of every base with preconditions are alternatives; a base which provides the function
+    without any precondition (postconditions only, snapshots only, no contract at all) makes the override accept every call."""
+    from . import c02
+    classes = []
+    for i, order in enumerate(c02.BASE_ORDERS):
+        classes.append("class D{}({}):\n    {{adef}} f(self):\n        LOG.append(('body', 'D'))\n        return 1\n".format(i, ", ".join(order)))
+    for is_async in (False, True):
+        src = c02.BASES_SRC.replace("{classes}", "".join(classes)).replace("{adef}", "async def" if is_async else "def")
+        ns = core.load_source(src, "c01b")
+        try:
+            for i, order in enumerate(c02.BASE_ORDERS):
+                cls = "D{}".format(i)
+                has_pre = [b for b in order if b == "A"]
+                accepts_all = any(b != "A" for b in order)
+                for pa in (True, False):
+                    def go():
+                        ns["T"].clear()
+                        obj = ns[cls]()
+                        ns["T"]["pa"] = pa
+                        del ns["LOG"][:]
+                        try:
+                            r = obj.f()
+                            if is_async:
+                                r = ns["RUN"](r)
+                            return "ret"
+                        except BaseException as e:  # noqa
+                            return type(e).__name__
+                    out = core.fresh_ctx_run(go)
+                    log = list(ns["LOG"])
+                    entered = ("body", "D") in log
+                    holds = pa or accepts_all or not has_pre
+                    acc.case(("bases", is_async, cls, pa), True, len(log), out)
+                    if entered != holds or (out == "ret") != holds or (not holds and out != "E_pa"):
+                        acc.violation(core.Violation(
+                            PROP, "body_not_entered_although_pre_holds" if holds else "body_entered_despite_violation",
+                            {"family": "several_bases", "bases": ",".join(order), "is_async": is_async, "pa": pa},
+                            "class {}({}) overriding f: the precondition of A is {}, {}: the effective precondition {} but the call gave {} "
+                            "(body entered: {}); log {}".format(cls, ", ".join(order), pa, "another base provides f without preconditions" if accepts_all else
+                                                                "no other base provides f", "holds" if holds else "is violated", out, entered, log),
+                            spec={"spec": {"fam": "bases"}}, script=src))
+            acc.sample({"family": "several_bases", "async": is_async}, cap=1)
+        finally:
+            core.unload_source(ns)
+
+
 def work(chunk):
     acc = core.Acc()
     for spec in chunk:
@@ -505,7 +554,7 @@ def work(chunk):
 
 
 def run(tier, t0):
-    sp = core.rotate(specs(tier) + diamond_specs(tier) + defaults_specs(tier)) + [{"fam": "overruled"}]
+    sp = core.rotate(specs(tier) + diamond_specs(tier) + defaults_specs(tier)) + [{"fam": "overruled"}, {"fam": "bases"}]
     tot = core.merge(core.pmap(work, sp))
     return core.finish(
         PROP, tier, tot, t0,
